@@ -1,4 +1,3 @@
-(* Where the C03 tables regenerated from the source live.  Until tools/translate_c03.generate() is appended to
-   Gen/Generated.v by tools/translate.py they are written to Gen/GeneratedC03.v at the start of every run of
-   ./check C03 (tools/props/c03.py: setup); after the merge this file becomes `From CA Require Export Gen.Generated.` *)
-From CA Require Export Gen.GeneratedC03.
+(* Where the C03 tables regenerated from the source live: tools/translate.py appends tools/translate_c03.generate()
+   to Gen/Generated.v on every run. *)
+From CA Require Export Gen.Generated.
